@@ -52,7 +52,7 @@ def bodies(rng, st, shebangs):
 CONTRIBUTORS = ["Daniel Brown", "Carol", "Michael", "Example Ltd.", "IBM", "see https://example.com/", "Dash --", "Semi;", "Fortran c",
                 "Bang!", "Percent %", "Quote '", "Ann Contributor", "Rem REM", "dots ..", "Hash #", "Lisp ;;;", "Star *", "x dnl",
                 # a name typed with combining accents (decomposed form), a compatibility character: written and found again as typed
-                "Rene\u0301 Mu\u0308ller", "\u212bngstro\u0308m Lab"]
+                "Rene\u0301 Mu\u0308ller", "\u212bngstro\u0308m Lab", "Joe Bloggs <joe@example.com>", "Q & A \"quoted\" O'Neil"]
 
 
 def count_blocks(text, args):
@@ -172,8 +172,11 @@ def run_case(case, ctx):
                                 extra += ["--contributor", "Ann Contributor"]
                             elif r < 0.3:
                                 extra += ["--copyright-prefix", rng.choice(["string", "spdx-symbol", "string-c", "symbol"])]
-                            elif r < 0.4:
+                            elif r < 0.36:
                                 extra += ["--template", "custom"]
+                            elif r < 0.4:
+                                # a custom template and values with characters that mean something to HTML
+                                extra += ["--template", "custom", "--contributor", rng.choice(["Joe Bloggs <joe@example.com>", "Q & A \"quoted\" O'Neil"])]
                             elif r < 0.5:
                                 extra = ["-c", "Jane Doe", "-c", "Other Holder <o@example.com>", "-l", "MIT", "--exclude-year"]
                             elif r < 0.55:
@@ -183,8 +186,12 @@ def run_case(case, ctx):
                             elif r < 0.7:
                                 extra = ["-c", "Jane Doe", "-l", "MIT", "--year", "2016", "--year", rng.choice(["2020", "2011", "2016"]),
                                          "--merge-copyrights"] + rng.choice([[], ["--copyright-prefix", "string-c"], ["-c", "Second Holder"]])
-                            elif r < 0.74:
+                            elif r < 0.72:
                                 extra += ["--template", "fixedtag"]
+                            elif r < 0.74:
+                                # expressions with an exception, and ones Boolean algebra could shorten
+                                extra = ["-c", "Jane Doe", "--year", "2020", "-l", rng.choice(["GPL-2.0-or-later WITH Classpath-exception-2.0",
+                                         "MIT OR (MIT AND ISC)", "Apache-2.0 WITH LLVM-exception OR MIT"])]
                             elif r < 0.77:
                                 # a header longer than any "header window": several KiB of notices
                                 extra = ["-l", "MIT", "--year", "2020"]
